@@ -288,6 +288,12 @@ def embedding(draw, planar_only=False):
     else:
         e["place"] = draw(placement(max_offset=8.0)) if draw(st.integers(0, 3)) > 0 else None
         e["offset2"] = [0.0, 0.0]
+        if e["place"] is not None and draw(st.integers(0, 9)) == 0:
+            # a plane tilted out of the xy-plane by a hair (1e-9 .. 1e-2 rad): "is the normal +z?" shortcuts must not fire
+            eps = 10.0 ** draw(f(-9, -2))
+            ax = draw(st.sampled_from([[1.0, 0.0], [0.0, 1.0], [0.6, -0.8]]))
+            e["place"]["quat"] = [1.0, 0.5 * eps * ax[0], 0.5 * eps * ax[1], 0.0]
+            e["tiny_tilt"] = eps
     return e
 
 
